@@ -204,9 +204,18 @@ class Driver:
     def step(self, frm, act, to):
         a = act["a"]
         kind = self.kind
-        if a == "Derive":
+        if a == "Derive" and act.get("r") == "InvalidRequestError":
+            try:
+                apply(kind, self.nodes[act["n"] - 1], act["x"])
+                return "%s on a Query with LIMIT/OFFSET did not raise; spec: InvalidRequestError" % act["x"]
+            except sa_exc.InvalidRequestError:
+                pass
+        elif a == "Derive":
             p = act["n"] - 1
-            new = apply(kind, self.nodes[p], act["x"])
+            try:
+                new = apply(kind, self.nodes[p], act["x"])
+            except sa_exc.InvalidRequestError as e:
+                return "%s raised InvalidRequestError (%s); spec: ok" % (act["x"], str(e)[:120])
             if new is self.nodes[p]:
                 return "generative method %s returned the statement it was called on" % act["x"]
             self.nodes.append(new)
